@@ -286,14 +286,14 @@ theorem C10_bookkeeping_locked :
 /-- **the layout extracted from the source is the lock-first layout** -/
 theorem C10_layout : ∀ k ∈ Kind.all, genLayout k = .lockFirst := by decide
 
-theorem C10_layout' (k : Kind) : genLayout k = .lockFirst :=
+theorem C10_layout_all (k : Kind) : genLayout k = .lockFirst :=
   C10_layout k (by cases k <;> decide)
 
 /-- hence every call of the source, compiled with the extracted layout, is atomic, and
 `C10_linearizable` / `C10_safe` apply to `plan genLayout interp` without further hypotheses -/
 theorem C10_source_atomic (interp : Nat → Val → Option Nat) (op : ListOp) :
     (plan genLayout interp op).Atomic (fun s => s.apply interp op) :=
-  plan_atomic genLayout interp op (C10_layout' _)
+  plan_atomic genLayout interp op (C10_layout_all _)
 
 theorem C10_source_locks (interp : Nat → Val → Option Nat) (op : ListOp) :
     (plan genLayout interp op).locks = true := (C10_source_atomic interp op).locks
